@@ -32,7 +32,7 @@ func propC16(p *Prog, r *Report) {
 	r.Rule("C16.a", "single-flusher hand-off: the producer pushes the deferred job and try-locks the flusher flag inside one region of the queue lock; on the flusher's 'queue empty' path the flag is released while the queue lock is still held since the pop (or the queue is re-examined after the release); otherwise a producer can push and fail the try-lock between the flusher's last pop and its unlock, and the job is stranded")
 	r.Rule("C16.b", "usable before Run: every interface- or func-typed field of Pool that an exported method (or a goroutine it spawns) calls through is assigned by the constructor, or the use is dominated by evidence that Run happened (a failed try-lock of the running flag)")
 	r.Rule("C16.c", "stop order: cancel -> sendWg.Wait -> runWg.Wait -> close(ch) on the running path of Stop; Stop never returns holding the running flag")
-	r.Rule("C16.d", "registration before test: in Send sendWg.Add(1) precedes the ctx.Err() test and every channel send and Done is deferred; the flusher's Add(1) precedes its go statement; runWg.Add(1) precedes each go p.run(), which defers Done")
+	r.Rule("C16.d", "registration ordered with Stop: Send tests the pool context and then registers in sendWg inside a region of a lock that Stop holds in write mode while it cancels (and does not hold while it waits), so a positive Add can never meet a Wait that found the counter at zero; Done is deferred before any blocking step; the flusher's Add(1) precedes its go statement; runWg.Add(1) precedes each go p.run(), which defers Done")
 	r.Rule("C16.e", "bounded blocking: every send on the job channel is a select case next to <-ctx.Done(); no channel operation, WaitGroup.Wait or Cond.Wait happens while the queue lock is held")
 	r.Rule("C16.f", "exactly-once structure: jobs enter the channel from exactly two sites (Send and the flusher); a deferred job is popped from the queue before it is sent; each receive is followed by exactly one exec")
 	r.Rule("C16.g", "in both constructors (inline db.New, app.New) Pool().Run precedes every other use of the pool")
@@ -482,54 +482,111 @@ func c16Registration(p *Prog, r *Report) {
 	if fi := p.Func(kPoolSend); fi != nil {
 		info := fi.Pkg.TypesInfo
 		f := p.FlatOf(fi)
-		adds := f.Match(func(n *GNode) bool {
-			for _, c := range callsIn(n.Ast, false) {
-				if isWGf(info, c, "sendWg", "Add") {
-					return true
+		lr := p.LockFlow(fi, nil)
+		var addEv, errEv *LockEvent
+		for _, ev := range lr.Events {
+			if ev.Kind != "call" || ev.Call == nil {
+				continue
+			}
+			if isWGf(info, ev.Call, "sendWg", "Add") && addEv == nil {
+				addEv = ev
+			}
+			if sel, ok := ev.Call.Fun.(*ast.SelectorExpr); ok && sel.Sel.Name == "Err" && errEv == nil {
+				if inner, ok := ast.Unparen(sel.X).(*ast.SelectorExpr); ok && inner.Sel.Name == "ctx" {
+					errEv = ev
 				}
 			}
-			return false
-		})
-		var tests []int
+		}
+		stop := p.Func(kPoolStop)
+		var cancelHeld, waitHeld []Held
+		cancelN, waitN := 0, 0
+		if stop != nil {
+			slr := p.LockFlow(stop, nil)
+			sinfo := stop.Pkg.TypesInfo
+			for _, ev := range slr.Events {
+				if ev.Kind != "call" || ev.Call == nil {
+					continue
+				}
+				if sel, ok := ev.Call.Fun.(*ast.SelectorExpr); ok && sel.Sel.Name == "cancel" {
+					cancelHeld, cancelN = ev.Held, cancelN+1
+				}
+				if isWGf(sinfo, ev.Call, "sendWg", "Wait") {
+					waitHeld, waitN = ev.Held, waitN+1
+				}
+			}
+		}
+		cons := kPoolSend + "#registration-ordered-with-stop"
+		if addEv == nil || errEv == nil || cancelN == 0 || waitN == 0 {
+			r.Viol("C16.d", cons, p.pos(fi.Decl), "Send's sendWg.Add / pool-context test or Stop's cancel / sendWg.Wait not found")
+		} else {
+			// a lock class L: Add and the context test under L (any mode) in Send, cancel under W(L) in Stop, Wait without L
+			common := ""
+			for _, h := range addEv.Held {
+				inErr, inCancelW, inWait := false, false, false
+				for _, g := range errEv.Held {
+					if g.Class == h.Class {
+						inErr = true
+					}
+				}
+				for _, g := range cancelHeld {
+					if g.Class == h.Class && g.Mode == "W" {
+						inCancelW = true
+					}
+				}
+				for _, g := range waitHeld {
+					if g.Class == h.Class {
+						inWait = true
+					}
+				}
+				if inErr && inCancelW && !inWait {
+					common = h.Class
+				}
+			}
+			// the test precedes the Add in the same region
+			var addNode, errNode = -1, -1
+			for _, n := range f.Nodes {
+				if n.Ast == nil {
+					continue
+				}
+				if n.Ast.Pos() <= addEv.Call.Pos() && addEv.Call.End() <= n.Ast.End() {
+					addNode = n.ID
+				}
+				if n.Ast.Pos() <= errEv.Call.Pos() && errEv.Call.End() <= n.Ast.End() {
+					errNode = n.ID
+				}
+			}
+			testFirst := addNode >= 0 && errNode >= 0 && f.MustPrecede(setOf([]int{errNode}), addNode)
+			r.Check(common != "" && testFirst, "C16.d", cons, p.pos(addEv.Call), "Send tests the pool context and registers in sendWg under "+common+", Stop cancels under its write lock and waits outside it",
+				fmt.Sprintf("Send's sendWg.Add(1) is not ordered against Stop's sendWg.Wait(): Add holds %s, the context test holds %s, Stop cancels under %s. A Send that registers after Stop found the counter at zero misuses the WaitGroup and panics (\"WaitGroup is reused before previous Wait has returned\"), or registers after Stop has passed the wait", heldString(addEv.Held), heldString(errEv.Held), heldString(cancelHeld)))
+		}
+		// Done deferred before any blocking step
+		var blocking []int
 		for _, n := range f.Nodes {
 			if n.Ast == nil {
 				continue
 			}
 			if _, isSend := n.Ast.(*ast.SendStmt); isSend {
-				tests = append(tests, n.ID)
+				blocking = append(blocking, n.ID)
 			}
 			for _, c := range callsIn(n.Ast, false) {
-				if sel, ok := c.Fun.(*ast.SelectorExpr); ok && (sel.Sel.Name == "Err" || sel.Sel.Name == "Done") {
-					if inner, ok := ast.Unparen(sel.X).(*ast.SelectorExpr); ok && inner.Sel.Name == "ctx" {
-						tests = append(tests, n.ID)
-					}
-				}
 				if p.callIs(fi.Pkg, c, kPoolLazySend) {
-					tests = append(tests, n.ID)
+					blocking = append(blocking, n.ID)
 				}
 			}
 		}
-		ok := len(adds) > 0 && len(tests) > 0
-		for _, t := range tests {
-			if !f.MustPrecede(setOf(adds), t) {
-				ok = false
-			}
-		}
-		r.Check(ok, "C16.d", kPoolSend+"#add-before-test", p.pos(fi.Decl), "sendWg.Add(1) precedes the context test and every send",
-			"Send tests the pool context or sends before registering in sendWg: Stop can pass sendWg.Wait and close the channel under a running Send")
-		// Done deferred right after
 		deferred := false
 		for _, n := range f.Nodes {
 			if ds, ok := n.Ast.(*ast.DeferStmt); ok && isWGf(info, ds.Call, "sendWg", "Done") {
 				deferred = true
-				for _, t := range tests {
+				for _, t := range blocking {
 					if !f.MustPrecede(setOf([]int{n.ID}), t) {
 						deferred = false
 					}
 				}
 			}
 		}
-		r.Check(deferred, "C16.d", kPoolSend+"#done-deferred", p.pos(fi.Decl), "sendWg.Done is deferred before any exit path", "Send can return without sendWg.Done: Stop blocks forever")
+		// every path that registered passes the deferred Done
+		r.Check(deferred, "C16.d", kPoolSend+"#done-deferred", p.pos(fi.Decl), "sendWg.Done is deferred before any blocking step", "Send can block or return without a deferred sendWg.Done: Stop blocks forever")
 	} else {
 		r.Undecided("C16.d", kPoolSend, "", "not found")
 	}
